@@ -22,13 +22,13 @@ VARIABLE hist
 \* taking the read lock AGAIN right after releasing it ("per-selection") has no gate in between either
 ReLockEn(r) == RLockEn(r) /\ rpc[r] > 1 /\ Prog(r)[rpc[r] - 1].op = "runlock"
 AutoEnabled == (\E m \in Reloads : AnnounceEn(m) \/ AcquireEn(m) \/ SwapEn(m) \/ UnlockEn(m))
-               \/ (\E r \in Requests : BuildEn(r) \/ ReLockEn(r))
+               \/ (\E r \in Requests : BuildEn(r) \/ ClassifyEn(r) \/ ReLockEn(r))
 AutoNext == (\E m \in Reloads : Announce(m) \/ Acquire(m) \/ Swap(m) \/ Unlock(m))
-            \/ (\E r \in Requests : Build(r) \/ (ReLockEn(r) /\ RLock(r)))
+            \/ (\E r \in Requests : Build(r) \/ Classify(r) \/ (ReLockEn(r) /\ RLock(r)))
 
 \* "x1" < "x2" < ... : order ids of one family by their last character via a fixed table
-Rank(s) == CHOOSE i \in 1..9 : \E pre \in {"d", "f", "s", "m"} : s = pre \o ToString(i)
-SameKind(a, b) == (a \in ReqDual /\ b \in ReqDual) \/ (a \in ReqV4 /\ b \in ReqV4) \/ (a \in ReqV6 /\ b \in ReqV6)
+Rank(s) == CHOOSE i \in 1..9 : \E pre \in {"d", "f", "s", "m", "u", "w"} : s = pre \o ToString(i)
+SameKind(a, b) == (a \in ReqFail /\ b \in ReqFail) \/ (a \in ReqFail6 /\ b \in ReqFail6) \/ (a \in ReqDual /\ b \in ReqDual) \/ (a \in ReqV4 /\ b \in ReqV4) \/ (a \in ReqV6 /\ b \in ReqV6)
 MayStart(r) == \A q \in Requests : (SameKind(q, r) /\ Rank(q) < Rank(r)) => rpc[q] > 1
 MayLoad(m) == \A q \in Reloads : q # m => (mpc[q] = "done" \/ (mpc[q] = "load" /\ Rank(q) > Rank(m)))
 
